@@ -15,7 +15,7 @@ theorem RegOk.of_eq {s s' : St} (h : s'.registered = s.registered) : RegOk s s' 
 
 theorem callCb_reg (U : Universe) (s : St) (o : Obj) (m : String) (e : Entry) :
     (callCb U s o m e).1.registered = s.registered := by
-  unfold callCb; simp only; split <;> rfl
+  unfold callCb; simp only; split <;> split <;> rfl
 
 theorem lifecycle_reg (U : Universe) (s : St) (ev : String) (o : Obj) (m : Mapping) (ent : Option Ent) :
     (lifecycle U s ev o m ent).1.registered = s.registered := by
@@ -96,7 +96,7 @@ theorem removeTypes_regOk (U : Universe) (s : St) (e : Ent) (ts : List Ty) :
 
 /-- without failures a plain event reaches every registered listener that maps it, once each, in
 the order of the registered set, with exactly the given arguments -/
-theorem deliverPlain_exact {U : Universe} (hn : NoRaise U) (s : St) (ev args : String) :
+theorem deliverPlain_exact {U : Universe} [U.Passive] (hn : NoRaise U) (s : St) (ev args : String) :
     (deliverPlain U s ev args).1.log =
       (s.registered.filterMap fun o =>
         ((U.mapOf o).bind (fun m => Dict.get? m ev)).map fun meth => Entry.probe o meth args).reverse
